@@ -682,8 +682,85 @@ def job_tables(cfg):
     return res
 
 
+def job_quadrature(cfg):
+    """fixed-rule path-quadrature stress (TimeQuadratureStressTensor): the Clenshaw-Curtis rule integrates every polynomial of degree < nPoints exactly
+    (symbolic coefficients); the operator is a discrete gradient, R_e . (u_{n+1} - u_n) = W(u_{n+1}) - W(u_n), whenever the rule is exact for the
+    law's stress along the strain path, and coefK K_e = dR_e/du_{n+1}; midpoint base state u_t = (u_n + u_{n+1}) / 2, coefK = 1/2."""
+    from EasyFEA.Models.HyperElastic._state import HyperElasticState
+    from EasyFEA.FEM import MatrixType
+    from EasyFEA.FEM.Operators import NonLinear
+
+    res = JobResult(cfg)
+    c = new_context()
+    facade.install()
+    name, dim, nP = cfg["law"], cfg["dim"], cfg["nPoints"]
+    key = f"path quadrature nPoints={nP} ({name}, dim={dim})"
+    res.functions |= {"NonLinear.TimeQuadratureStressTensor", "NonLinear.__clenshaw_curtis", "NonLinear._StrainPathState", "NonLinear.__geometric_tangent", "NonLinear.__block_grad_B"}
+    nodes, weights = getattr(NonLinear, "__clenshaw_curtis")(int(nP))
+    # (a) the rule: exact for a general polynomial of degree nPoints - 1 (nPoints = 1: midpoint, degree 1) with symbolic coefficients
+    deg = max(1, nP - 1)
+    co = [c.var(f"p{k}", -1, 1) for k in range(deg + 1)]
+    quad = sum(Fraction(float(w)) * sum(co[k] * Fraction(float(x)) ** k for k in range(deg + 1)) for x, w in zip(nodes, weights))
+    exact = sum(co[k] * Fraction(1, k + 1) for k in range(deg + 1))
+
+    def replay_rule(env):
+        ks = np.arange(deg + 1)
+        err = max(abs(sum(w * x ** k for x, w in zip(nodes, weights)) - 1.0 / (k + 1)) for k in ks)
+        return err > 1e-12, {"nPoints": nP, "weights_sum": float(sum(weights)), "max_moment_error_up_to_degree": int(deg), "error": float(err)}
+
+    close_all(res, f"{key}: the rule integrates every polynomial of degree <= {deg} on [0, 1] exactly (symbolic coefficients)", [(quad, exact)], [], replay_rule, f"Clenshaw-Curtis rule nPoints={nP} exactness",
+              tol=Fraction(1, 10 ** 12), sample={"obligation": f"for all coefficients p_k in [-1,1]: |sum_i w_i p(s_i) - int_0^1 p| <= 1e-12, degree {deg} (QF_LRA)"})
+    mesh = one_element(dim)
+    g = mesh.groupElem
+    un, sn = sym_displacement(c, mesh, dim, list(range(mesh.Nn)), name="a")
+    u1, s1 = sym_displacement(c, mesh, dim, list(range(mesh.Nn)), name="b")
+    res.symbols = len(sn) + len(s1) + deg + 1
+    law = make_law(name, dim) if name != "Polynomial" else polynomial_law(c, dim, rich=False)
+    if name == "Polynomial":
+        res.symbols += law.nsym
+    mark = c.mark()
+    with facade.symbolic():
+        ut = (un + u1) * Fraction(1, 2)
+        st_n, st_t, st_1 = (HyperElasticState(g, x, MatrixType.rigi) for x in (un, ut, u1))
+        K_e, R_e, _ = NonLinear.TimeQuadratureStressTensor(law, st_n, st_t, st_1, 0.5, nP)
+        wJ = np.asarray(g.Get_weightedJacobian_e_pg(MatrixType.rigi), dtype=object)[0]
+        th = law.thickness if dim == 2 else 1
+        W0 = (wJ * np.asarray(law.Compute_W(HyperElasticState(g, un, MatrixType.rigi)), dtype=object)[0]).sum() * th
+        W1 = (wJ * np.asarray(law.Compute_W(HyperElasticState(g, u1, MatrixType.rigi)), dtype=object)[0]).sum() * th
+    pcs = c.pc_since(mark)
+    res.paths, res.path_conditions = 1, len(pcs)
+    K_e, R_e = np.asarray(K_e, dtype=object)[0], np.asarray(R_e, dtype=object)[0]
+
+    def replay(env):
+        full = fenv(c, env)
+        a = np.array([float(as_sym(x).eval(full)) for x in un])
+        b = np.array([float(as_sym(x).eval(full)) for x in u1])
+        lawf = make_law(name, dim) if name != "Polynomial" else law.concrete(full)
+        sa, sb, stt = HyperElasticState(g, a, MatrixType.rigi), HyperElasticState(g, b, MatrixType.rigi), HyperElasticState(g, (a + b) / 2, MatrixType.rigi)
+        Kf, Rf, _ = NonLinear.TimeQuadratureStressTensor(lawf, sa, stt, sb, 0.5, nP)
+        wJf = np.asarray(g.Get_weightedJacobian_e_pg(MatrixType.rigi))[0]
+        thf = lawf.thickness if dim == 2 else 1
+        dW = float(((wJf * np.asarray(lawf.Compute_W(sb))[0]).sum() - (wJf * np.asarray(lawf.Compute_W(sa))[0]).sum()) * thf)
+        work = float(np.asarray(Rf)[0] @ (b - a))
+        return abs(work - dW) > 1e-9 * max(1e-3, abs(dW)), {"nPoints": nP, "R.du": work, "W(u_n+1) - W(u_n)": dW, "u_n": a.tolist(), "u_n+1": b.tolist()}
+
+    work = sum(as_sym(R_e[i]) * (as_sym(u1[i]) - as_sym(un[i])) for i in range(len(sn)))
+    # the stress along the strain path is a polynomial in s of degree (degree of W in e) - 1: 1 for SaintVenantKirchhoff, 2 for the cubic law
+    need = 1 if name == "SaintVenantKirchhoff" else 2
+    if deg >= need or (nP == 1 and need == 1):
+        close_all(res, f"{key}: discrete gradient, R_e . (u_n+1 - u_n) = W(u_n+1) - W(u_n) for all end states", [(work, as_sym(W1) - as_sym(W0))], pcs, replay, f"path quadrature discrete gradient ({name})",
+                  sample={"obligation": f"{key}: for all u_n, u_n+1 in the box: |R_e.(u_n+1 - u_n) - (W(u_n+1) - W(u_n))| <= tol (polynomial identity)"})
+    ndof = len(s1)
+    pairs = [(as_sym(R_e[i]).diff(s1[j]), as_sym(K_e[i, j]) * Fraction(1, 2)) for i in range(ndof) for j in range(ndof)]
+    close_all(res, f"{key}: coefK K_e = dR_e/du_n+1 entrywise", pairs, pcs, replay, f"path quadrature tangent ({name})")
+    tw = prove_abs_le(work - (as_sym(W1) - as_sym(W0)) * 2, TOL, pcs, "twin")
+    res.twin(f"{key} twin", tw.status == "cex")
+    res.stubs |= facade.USED_STUBS
+    return res
+
+
 def job(cfg):
-    return {"law": job_law, "operator": job_operator, "law_invariants": job_law_invariants, "tables": job_tables}[cfg["kind"]](cfg)
+    return {"law": job_law, "operator": job_operator, "law_invariants": job_law_invariants, "tables": job_tables, "quadrature": job_quadrature}[cfg["kind"]](cfg)
 
 
 def main():
@@ -710,16 +787,21 @@ def main():
             configs.append(cfgo)
             if tier == "thorough" and law == "SaintVenantKirchhoff":
                 configs.append({"kind": "operator", "op": op, "law": law, "dim": 3})
+    for nP in ((1, 2, 3, 4, 5, 6) if tier == "quick" else (1, 2, 3, 4, 5, 6, 7, 8, 9)):
+        configs.append({"kind": "quadrature", "law": "SaintVenantKirchhoff", "dim": 2, "nPoints": nP})
+    if tier == "thorough":
+        # cubic energy: the stress is quadratic along the strain path, Simpson's rule (3 points) is the first exact one
+        configs.append({"kind": "quadrature", "law": "Polynomial", "dim": 2, "nPoints": 3})
     results = harness.run_jobs(job, configs)
     harness.finish(
         PID, results, t0=t0,
         explanation="Bounded symbolic execution + exact differentiation. The real kinematics, invariant tables, law energies / stresses / tangents and nonlinear element operators run on one element with symbolic nodal displacements "
                     "(fractional powers of I3 as auxiliary roots, log opaque with its derivative rule, Kelvin-Mandel sqrt(2) exact); symbolic derivatives of the executed expressions (chain rule through the auxiliaries) are compared "
                     "with the code's own stress / tangent / operator tangent as rational identities closed by normal form modulo the root definitions or decided by z3 with tolerance.",
-        bound={"elements": "one TRI3 (2-D), one TETRA4 (3-D)", "displacement_box": "+-1/8 per component (J > 0)", "laws": LAWS, "operators": ["SecondPiolaKirchhoffStressTensor", "ActiveStressTensor", "KelvinVoigtDamping"],
+        bound={"elements": "one TRI3 (2-D), one TETRA4 (3-D)", "displacement_box": "+-1/8 per component (J > 0)", "laws": LAWS, "operators": ["SecondPiolaKirchhoffStressTensor", "ActiveStressTensor", "KelvinVoigtDamping", "TimeQuadratureStressTensor (fixed rule, nPoints 1-6 quick / 1-9 thorough)"],
                "rotations": "2-D symbolic angle; 3-D 3-4-5 about z and 5-12-13 about (2,3,6)/7"},
         symbolic=["nodal displacement components (4 in 2-D with node 0 fixed / 6 for operators; 9 / 12 in 3-D)", "nodal velocities (Kelvin-Voigt)", "material constants (reference configuration)", "rotation (c, s) in 2-D"],
-        assumptions=["Holzapfel-Ogden (nested exponentials), user energies through jax AutoDiff (FFI), discrete-gradient / time-quadrature operators, penalty contact (KD-tree), follower pressure and multi-step energy conservation (Newton iterations "
+        assumptions=["Holzapfel-Ogden (nested exponentials), user energies through jax AutoDiff (FFI), the Gonzalez discrete-gradient operator and the adaptive path quadrature, penalty contact (KD-tree), follower pressure and multi-step energy conservation (Newton iterations "
                      "to a float tolerance) are outside", "one element, first-order shape functions: the deformation gradient is general but uniform"],
         source_files=["EasyFEA/Models/HyperElastic/_laws.py", "EasyFEA/Models/HyperElastic/_state.py", "EasyFEA/FEM/Operators/NonLinear.py", "EasyFEA/Models/_utils.py"],
         rule="one job per (law, dimension) and per (operator, law, dimension); non-trivial = symbolic displacement with exact symbolic differentiation",
